@@ -269,6 +269,9 @@ _ex('dirichlet', 'dirichlet', lambda c: ((c.mpf(2.5), [0, 1, 0, -1]), {}))
 _ex('secondzeta', 'secondzeta', lambda c: ((c.mpf(2),), {}))
 _ex('rs_z', 'rs_z', lambda c: ((c.mpf(1000),), {}))
 _ex('rs_zeta', 'rs_zeta', lambda c: ((c.mpc(0.5, 1000),), {}))
+_ex('rs_zeta/offline', 'rs_zeta', lambda c: ((c.mpc(0.75, 1000),), {}))
+_ex('rs_z/offline', 'rs_z', lambda c: ((c.mpc(1000, 0.25),), {}))
+_ex('siegelz/rs', 'siegelz', lambda c: ((c.mpf(20000.5),), {}))
 _ex('zeta/rs', 'zeta', lambda c: ((c.mpc(0.5, 20000),), {}))
 _ex('zeta/derivative', 'zeta', lambda c: ((c.mpf(2.5), 1, 2), {}))
 _ex('zetazero', 'zetazero', lambda c: ((3,), {}))
@@ -459,11 +462,11 @@ NATURAL = [
     ('sqrtm', '(c.matrix([[0, 1], [0, 0]]),)'), ('powm', '(c.matrix([[0, 1], [0, 0]]), -0.5)'), ('eig', '(c.matrix(2, 3),)'),
     ('pslq', '([1, 2],)', {'maxcoeff': 0}), ('findpoly', '(c.pi, 2)', {'maxcoeff': 3, 'maxsteps': 5}),
     ('identify', '(c.pi,)', {'tol': -1}), ('unitroots', '(0,)'), ('bernfrac', '(-1,)'), ('zetazero', '(0,)'),
-    ('nzeros', '(-5,)'), ('grampoint', '(-100,)'), ('secondzeta', '(1,)'), ('dirichlet', '(1, [1])'),
+    ('nzeros', '(-5,)'), ('nzeros', '(15,)'), ('nzeros', '(14.5,)'), ('backlunds', '(15,)'), ('siegelz', '(20000.5,)'), ('zeta', '(c.mpc(0.5, 20000.5),)'), ('grampoint', '(-100,)'), ('secondzeta', '(1,)'), ('dirichlet', '(1, [1])'),
     ('ellipfun', '("xx", 1, 0.5)'), ('qfrom', '()', {'q': 0.5, 'm': 0.5}), ('meijerg', '([[1, 1], []], [[1], [0]], 1)'),
     ('hyper2d', '({"m+n": [1]}, {}, 2, 3)'), ('bihyper', '([1], [], 2)'),
     ('qhyper', '([2], [3], 0.5, 5)'), ('gammaprod', '([0], [1])'), ('gammaprod', '([0, 0], [0])'),
-    ('coulombc', '(-1, 1j)'), ('rs_z', '(1000,)'), ('rs_zeta', '(c.mpc(0.5, 1000),)'), ('rs_z', '(1000, 1)'), ('fsum', '([1, "x"],)'), ('fdot', '([1, 2], ["a", 3])'),
+    ('coulombc', '(-1, 1j)'), ('rs_z', '(1000,)'), ('rs_zeta', '(c.mpc(0.5, 1000),)'), ('rs_z', '(1000, 1)'), ('rs_zeta', '(c.mpc(0.75, 1000),)'), ('rs_z', '(c.mpc(1000, 0.25),)'), ('fsum', '([1, "x"],)'), ('fdot', '([1, 2], ["a", 3])'),
     ('convert', '("1.2.3",)'), ('mpmathify', '(object(),)'), ('nstr', '(object(),)'), ('linspace', '(0, 1, -1)'),
     ('arange', '(0, 1, 0)'), ('fraction', '(1, 0)'), ('mag', '(c.nan,)'), ('ldexp', '(1.5, 0.5)'),
     ('workprec', '(-5,)'), ('workdps', '("a",)'), ('extraprec', '(None,)'), ('autoprec', '(lambda x: x/0,)'),
